@@ -343,17 +343,32 @@ type gatedConn struct {
 }
 
 func (g *gatedConn) Read(p []byte) (int, error) {
-	g.mu.Lock()
-	for g.stalled {
-		g.cond.Wait()
+	for {
+		g.mu.Lock()
+		for g.stalled {
+			g.cond.Wait()
+		}
+		g.mu.Unlock()
+		n, err := g.Conn.Read(p)
+		if n == 0 && err != nil {
+			if ne, ok := err.(net.Error); ok && ne.Timeout() {
+				continue // kicked out of a pending Read by setStalled(true)
+			}
+		}
+		return n, err
 	}
-	g.mu.Unlock()
-	return g.Conn.Read(p)
 }
 
+// setStalled(true) takes effect at once: a Read that is already pending is interrupted through the read
+// deadline, so not a single further byte is taken from the server until setStalled(false).
 func (g *gatedConn) setStalled(v bool) {
 	g.mu.Lock()
 	g.stalled = v
+	if v {
+		_ = g.Conn.SetReadDeadline(time.Unix(1, 0))
+	} else {
+		_ = g.Conn.SetReadDeadline(time.Time{})
+	}
 	g.mu.Unlock()
 	g.cond.Broadcast()
 }
